@@ -14,7 +14,7 @@ class LeanLock:
         self.name = name
 
     def __enter__(self):
-        self.f = open(os.path.join(LEAN_DIR, ".verif.lock" + ("." + self.name if self.name else "")), "w")
+        self.f = open(os.path.join(LEAN_DIR, ".verif.lock." + (self.name if self.name else "lakefile")), "w")
         fcntl.flock(self.f, fcntl.LOCK_EX)
         return self
 
